@@ -18,7 +18,7 @@ from .tlaval import parse, read_dump
 
 BOUNDS = {
     "quick": dict(sigma="ab", N=4, K=4, gK=5, F=1, rnd=600),
-    "thorough": dict(sigma="ab", N=5, K=5, gK=6, F=2, rnd=8000),
+    "thorough": dict(sigma="ab", N=4, K=5, gK=6, F=1, rnd=8000),
 }
 NOFB = ("none",)
 
